@@ -663,6 +663,17 @@ fn extract<'tcx>(tcx: TyCtxt<'tcx>, crate_name: &str) -> J {
                 if let ty::Adt(def, _) = self_ty.kind() {
                     v.push(("self_adt", J::s(&path_of(tcx, def.did()))));
                 }
+                // trait bounds on the impl's type parameters: [[param, trait], ..]
+                let mut bounds = vec![];
+                for (clause, _) in tcx.predicates_of(imp).predicates.iter() {
+                    if let Some(tc) = clause.as_trait_clause() {
+                        let tp = tc.skip_binder();
+                        if let ty::Param(p) = tp.self_ty().kind() {
+                            bounds.push(J::Arr(vec![J::s(p.name.as_str()), J::s(&path_of(tcx, tp.def_id()))]));
+                        }
+                    }
+                }
+                v.push(("impl_bounds", J::Arr(bounds)));
                 if let Some(tr) = tcx.impl_opt_trait_ref(imp) {
                     let tr = tr.instantiate_identity().skip_norm_wip();
                     v.push(("trait", J::s(&path_of(tcx, tr.def_id))));
